@@ -1,5 +1,6 @@
 import re
 import string
+import unicodedata
 from abc import ABC, abstractmethod
 from keyword import iskeyword
 
@@ -20,5 +21,8 @@ class BuiltinNameSanitizer(NameSanitizer):
 
         first_letter = name[0] if name[0] in string.ascii_letters else "_"
         result = first_letter + self._BAD_CHARS.sub("", name[1:].translate(self._TRANSLATE_MAP))
+        # ``\w`` matches characters that can not be part of an identifier (like superscript digits),
+        # the parser applies NFKC normalization to identifiers, so it is done beforehand to keep the names consistent
+        result = unicodedata.normalize("NFKC", "".join(char for char in result if ("_" + char).isidentifier()))
         # ``__debug__`` is an identifier that can not be assigned
         return result + "_" if iskeyword(result) or result == "__debug__" else result
